@@ -15,7 +15,7 @@ NOT_PROVED = ["IEEE rounding of the cumulative sums (measured per case: max_roun
 ASSUMPTIONS = ["scipy.integrate.cumulative_trapezoid and np.cumsum are the sums their documentation states (prelude primitives, differentially tested)"]
 
 
-PROP_MODULES = ['C08', 'C08Gen', 'C08Residual', 'C08GenResidual', 'C08GenObject']
+PROP_MODULES = ['C08', 'C08Gen', 'C08Residual', 'C08GenResidual', 'C08GenObject', 'C08CorrectMe']
 
 def run(ctx):
     import eqsig
